@@ -119,5 +119,10 @@ func checkSpecs() map[string]CheckSpec {
 	}, Explanation: "WKT encoder with a decimal-digit limit: strconv.FormatFloat replaced by a model returning an arbitrary digit string of the documented shape; the real trimming and builder code checked for every such string.",
 		Assumptions: []string{"model: strconv.FormatFloat(x,'f',d,64) returns [-]D+.D{d} (D+ <= 3 digits here) within half a unit in the last place of x (the rounding itself is strconv's contract, not decided)"},
 		Outside: []string{"|emitted - x| <= 0.5*10^-d (strconv's rounding)", "the GeoJSON encoder (reflect/encoding/json not encoded)", "integer parts longer than 3 digits"}})
+	add(CheckSpec{Property: "C05", Harnesses: []HarnessSpec{
+		{Func: "HC05_RoundTrip", Pkg: "encoding/wkt", Domain: B, Covers: []string{"end"}},
+	}, Explanation: "wkt.Marshal followed by the real lexer, goyacc parser and grammar actions (wkt.Unmarshal) on every geometry tree of the bound, in five spellings of the text.",
+		Assumptions: []string{"model: strconv.FormatFloat(x,'f',-1,64) / ParseFloat(s,64) satisfy the shortest-round-trip contract (placeholder digit strings stand for the formatted ordinates)"},
+		Outside: []string{"an independent (non-library) WKT reader of the emitted text", "exponent / .5 / 5. number spellings, per-letter case mixes, bare multipoint members", "trees beyond the bound"}})
 	return m
 }
